@@ -51,6 +51,7 @@ func cmdParseFamilies(args []string) {
 	fs := newFlags("parse-families", args)
 	sizes := fs.String("sizes", "100,1000", "comma separated sizes")
 	out := fs.String("out", "", "output ndjson")
+	only := fs.String("only", "", "run only this family")
 	jsonMax := fs.Int("json-max", 4000, "largest size at which json.Marshal is observed (it is quadratic in the nesting depth)")
 	fs.Parse(args)
 	r, closeFn := newRecorder(*out, false)
@@ -59,8 +60,8 @@ func cmdParseFamilies(args []string) {
 	for _, sz := range strings.Split(*sizes, ",") {
 		n := atoiOr(sz, 100)
 		for _, f := range families {
-			if hangs >= 2 {
-				break
+			if hangs >= 2 || (*only != "" && *only != f.name) {
+				continue
 			}
 			id++
 			q := f.gen(n)
